@@ -13,7 +13,9 @@
 //!
 //! scenario = {"rom":[[addr,"hex"],...], "rom_base", "rom_size", "pc","s","u","ba","i","x","y","f",
 //!             "imr0","isr0","mti","sti","strobe":bool,"win_lo","win_hi","steps",
-//!             "events":[[step_index,"kind",arg],...]}
+//!             "events":[[step_index,"kind",arg],...],
+//!             optional: "imem":[[offset,"hex"],...] initial internal-memory bytes, "kbirq":bool keyboard-interrupt
+//!             enable, "im_lo","im_hi" internal-memory window reported as "im" in every observation}
 //! The observation record layout equals vp_harness/c12_pymachine.py.
 use crate::util::{err, get_bool, get_str, get_u32, get_u64};
 use sc62015_core::llama::opcodes::RegName;
@@ -28,6 +30,9 @@ pub struct Machine {
     pub rt: CoreRuntime,
     pub win_lo: u32,
     pub win_hi: u32,
+    /// optional internal-memory window [im_lo, im_hi) reported as "im" (absent when empty)
+    pub im_lo: u32,
+    pub im_hi: u32,
 }
 
 #[derive(Default)]
@@ -98,6 +103,25 @@ pub fn create(sc: &Value) -> Result<Machine, String> {
             kb.handle_write(0xF1, 0x07, &mut rt.memory);
         }
     }
+    // optional initial internal-memory contents [[offset,"hex"],...] (user RAM pattern, BP/PX/PY)
+    if let Some(segs) = sc.get("imem").and_then(|v| v.as_array()) {
+        for seg in segs {
+            let off = seg.get(0).and_then(|v| v.as_u64()).unwrap_or(0) as u32;
+            let data = unhex(seg.get(1).and_then(|v| v.as_str()).unwrap_or(""));
+            for (i, b) in data.iter().enumerate() {
+                let o = off + i as u32;
+                if o > 0xFF {
+                    return Err(format!("imem offset {o:#x} outside internal memory"));
+                }
+                rt.memory.write_internal_byte(o, *b);
+            }
+        }
+    }
+    // optional keyboard-interrupt enable (public API: TimerContext::set_keyboard_irq_enabled)
+    if sc.get("kbirq").is_some() {
+        rt.timer
+            .set_keyboard_irq_enabled(get_bool(sc, "kbirq", true));
+    }
     rt.memory
         .write_internal_byte(ISR, get_u32(sc, "isr0", 0) as u8);
     rt.memory
@@ -106,6 +130,8 @@ pub fn create(sc: &Value) -> Result<Machine, String> {
         rt,
         win_lo: get_u32(sc, "win_lo", 0xBFF00 - 48),
         win_hi: get_u32(sc, "win_hi", 0xBFF00),
+        im_lo: get_u32(sc, "im_lo", 0).min(0x100),
+        im_hi: get_u32(sc, "im_hi", 0).min(0x100),
     })
 }
 
@@ -123,7 +149,7 @@ impl Machine {
         let ext = rt.memory.external_slice();
         let lo = (self.win_lo as usize).min(ext.len());
         let hi = (self.win_hi as usize).min(ext.len());
-        json!({
+        let mut o = json!({
             "pc": st.pc() & 0xFFFFF,
             "s": st.get_reg(RegName::S),
             "f": st.get_reg(RegName::F) & 0xFF,
@@ -145,7 +171,14 @@ impl Machine {
             "ns": rt.timer.next_sti,
             "src": rt.timer.last_irq_src.clone(),
             "stk": hex(&ext[lo..hi]),
-        })
+        });
+        if self.im_hi > self.im_lo {
+            let im: Vec<u8> = (self.im_lo..self.im_hi)
+                .map(|a| rt.memory.read_internal_byte_silent(a).unwrap_or(0))
+                .collect();
+            o["im"] = json!(hex(&im));
+        }
+        o
     }
 
     pub fn event(&mut self, kind: &str, arg: &Value) -> Result<(), String> {
